@@ -614,7 +614,8 @@ func init() {
 			t.StopCall = func(site ssa.CallInstruction, arg ssa.Value) bool {
 				n := calleeName(site.Common())
 				// post-processing and serialisation legitimately receive evaluated nodes
-				return n == "(*vuego.Vue).postProcessNodes" || n == "(*vuego.Vue).render" || strings.HasPrefix(n, "builtin.")
+				// (append is followed: a list that has evaluated nodes appended to it is evaluated output too)
+				return n == "(*vuego.Vue).postProcessNodes" || n == "(*vuego.Vue).render" || (strings.HasPrefix(n, "builtin.") && n != "builtin.append")
 			}
 			t.Sink = func(u ssa.Instruction, v ssa.Value) string {
 				site, ok := u.(ssa.CallInstruction)
